@@ -4,6 +4,8 @@ from props import c18_seq
 
 def run(ctx):
     ctx.prove(props=["C18_seq"])
+    from props import c18
+    c18.gen_steps(ctx, ("seqenum",))
     c18_seq.run_part(ctx)
     if ctx.tier == "thorough":
         ctx.coqchk("VQP.C18_seq")
